@@ -442,7 +442,7 @@ class Fn:
             x = self.term_of_operand(rv["op"], b, depth)
             if "PointerCoercion" in rv["kind"]:
                 return x
-            return ("cast", rv["ty"], x)
+            return ("cast", rv["ty"], x, rv.get("src"))
         if k in ("Ref", "RawPtr"):
             return ("ref", self.term_of_place(rv["p"], depth))
         if k == "CopyForDeref":
@@ -792,6 +792,8 @@ def tmatch(t, pat, env=None):
             return None
         return env
     if k == "arg" or k == "var":
+        if isinstance(pat[1], int):          # by position (robust against renaming parameters / locals)
+            return env if t[1] == pat[1] else None
         return env if (pat[1] == "_" or t[2] == pat[1]) else None
     if k == "call":
         if not (t[1] and (pat[1] == "_" or path_matches(t[1], pat[1]))):
